@@ -105,7 +105,7 @@ def truthy(v):
     raise Unsupported(f"truthiness of {v.kind}")
 
 
-LEAN_TYPES = {"ints": "List Int", "int": "Int", "bool": "Bool", "fix": "Int", "opt:int": "Option Int", "opt:fix": "Option Int",
+LEAN_TYPES = {"optbytes": "Option Bytes", "ints": "List Int", "int": "Int", "bool": "Bool", "fix": "Int", "opt:int": "Option Int", "opt:fix": "Option Int",
               "opt:bool": "Option Bool", "bytes": "Bytes"}
 
 
@@ -135,6 +135,9 @@ class Tr:
         self.generated = generated or {}     # python method name -> (lean name, arg kinds, result kind)
         self.effectful = spec.get("effectful", False)
         self.obligations = []
+        self.err_map = None
+        self.fresh = 0
+        self.native = spec.get("native_bytes", False)
 
     # ---- expressions -------------------------------------------------------------------------
     def expr(self, e, st, sc):
@@ -148,6 +151,10 @@ class Tr:
                 return lit_int(c)
             if isinstance(c, float):
                 return lit_fix(c)
+            if isinstance(c, bytes):
+                if self.native:
+                    return V("bytes", "([" + ", ".join(str(x) for x in c) + "] : Bytes)", const=c)
+                return V("seq", items=[lit_int(x) for x in c])
             raise Unsupported(f"constant {c!r}")
         if isinstance(e, ast.Name):
             if e.id in st:
@@ -163,11 +170,21 @@ class Tr:
                 if e.attr in self.spec.get("class_consts", {}):
                     return lit_int(self.spec["class_consts"][e.attr])
                 raise Unsupported(f"attribute self.{e.attr} is not an input")
+            if isinstance(e.value, ast.Attribute) and isinstance(e.value.value, ast.Name) and e.value.value.id in ("self", "cls"):
+                nested = self.spec.get("nested_consts", {}).get(e.value.attr, {})
+                if e.attr in nested:
+                    return lit_int(nested[e.attr])
             raise Unsupported("attribute " + ast.dump(e)[:60])
         if isinstance(e, ast.IfExp):
+            test, swapped = canon_test(e.test)
+            if swapped:
+                e = ast.IfExp(test=test, body=e.orelse, orelse=e.body)
             c = self.cond(e.test, st, sc)
+            n0 = len(sc.reads)
             a = self.expr(e.body, st, sc)
             b = self.expr(e.orelse, st, sc)
+            if len(sc.reads) != n0:
+                raise Unsupported("an operation that can raise inside a conditional expression")
             return self.ite(c, a, b)
         if isinstance(e, ast.BoolOp):
             # only in boolean position / over bools
@@ -202,6 +219,17 @@ class Tr:
                     raise Unsupported("table index not of the form `expr & mask` with mask < len(table)")
                 return V("int", f"Py.tableGet {tname} {paren(iv.lean)}")
             base = self.expr(e.value, st, sc)
+            if base.kind == "bytes":
+                if isinstance(e.slice, ast.Slice):
+                    if e.slice.step is not None:
+                        raise Unsupported("slice step")
+                    return V("bytes", f"Py.slice {paren(base.lean)} {self.slice_bound(e.slice.lower, st, sc)} "
+                                      f"{self.slice_bound(e.slice.upper, st, sc)}")
+                iv = self.expr(e.slice, st, sc)
+                if iv.kind == "int" and iv.const is not None:
+                    name = self.effect(sc, f"Py.indexI {paren(base.lean)} {paren(str(iv.const))}", "b", key=(base.lean, iv.const))
+                    return V("int", name)
+                raise Unsupported("non-constant index into bytes")
             if isinstance(e.slice, ast.Slice) and self.is_seq(base):
                 if e.slice.step is not None:
                     raise Unsupported("slice step")
@@ -237,6 +265,25 @@ class Tr:
             name = f"{base.lean}_{i}"
             sc.reads.append((key, name))
         return V("int", name)
+
+    def effect(self, sc, term, hint="v", key=None):
+        """an effectful sub-computation (`R α`) in expression position: bound here, in source order"""
+        if key is not None:
+            name = sc.lookup(key)
+            if name is not None:
+                return name
+        if getattr(sc, "pure_branch", False):
+            raise Unsupported("effect inside a non-returning branch")
+        if self.err_map:
+            cls_, err = self.err_map
+            term = f"Py.mapErr \"{cls_}\" {err} ({term})"
+        k = key if key is not None else ("effect", len(sc.reads), id(sc))
+        name = "%s_%d" % (hint, self.fresh)
+        self.fresh += 1
+        sc.reads.append((k, name))
+        sc.custom = getattr(sc, "custom", {})
+        sc.custom[k] = term
+        return name
 
     def read_general(self, term, i, sc):
         """`seq[i]` for a constant (possibly negative) index: IndexError outside"""
@@ -300,6 +347,14 @@ class Tr:
             return f"Py.ints {v.lean}"
         raise Unsupported("byte sequence expected, got " + v.kind)
 
+    def bytes_term(self, v):
+        """Lean term of type `Bytes` (native mode)"""
+        if v.kind == "bytes":
+            return v.lean
+        if v.kind == "seq" and all(x.kind == "int" and x.const is not None and 0 <= x.const <= 255 for x in v.items):
+            return "([" + ", ".join(str(x.const) for x in v.items) + "] : Bytes)"
+        raise Unsupported("bytes expected, got " + v.kind)
+
     @staticmethod
     def is_seq(v):
         return v.kind in ("seq", "ilistexpr", "ints", "bytesvar")
@@ -312,6 +367,8 @@ class Tr:
 
     def binop(self, op, a, b):
         ck = None
+        if isinstance(op, ast.Add) and (a.kind == "bytes" or b.kind == "bytes"):
+            return V("bytes", f"({self.bytes_term(a)} ++ {self.bytes_term(b)})")
         if isinstance(op, ast.Add) and self.is_seq(a) and self.is_seq(b):
             if a.kind == "seq" and b.kind == "seq":
                 return V("seq", items=list(a.items) + list(b.items))
@@ -335,6 +392,20 @@ class Tr:
                 raise Unsupported("shift by a non-literal amount")
             sym = "<<<" if isinstance(op, ast.LShift) else ">>>"
             return V("int", f"({paren(to_int_term(a))} {sym} {b.const})")
+        if isinstance(op, ast.Mod) and a.kind in ("int", "bool") and b.kind == "int" and b.const is not None \
+                and b.const >= 2 and (b.const & (b.const - 1)) == 0:
+            return V("int", f"Py.band {paren(to_int_term(a))} {b.const - 1}")      # x % 2^k == x & (2^k - 1) for every int
+        if isinstance(op, ast.Add) and a.kind == "int" and b.kind == "int":
+            # sums of ints in a canonical shape: non-constant terms in text order, then the folded constant
+            ta, ca = getattr(a, "sum_terms", None) or ([a.lean] if a.const is None else []), getattr(a, "sum_const", a.const or 0)
+            tb, cb = getattr(b, "sum_terms", None) or ([b.lean] if b.const is None else []), getattr(b, "sum_const", b.const or 0)
+            terms, c = sorted(ta + tb), ca + cb
+            if not terms:
+                return lit_int(c)
+            lean = " + ".join(paren(t) for t in terms) + (f" + {c}" if c > 0 else f" - {-c}" if c < 0 else "")
+            v = V("int", "(" + lean + ")" if (len(terms) > 1 or c != 0) else terms[0])
+            v.sum_terms, v.sum_const = terms, c
+            return v
         if isinstance(op, (ast.Add, ast.Sub, ast.Mult)):
             sym = {"Add": "+", "Sub": "-", "Mult": "*"}[type(op).__name__]
             if a.kind == "fix" or b.kind == "fix":
@@ -342,7 +413,7 @@ class Tr:
                     raise Unsupported("float multiplication")
                 return V("fix", f"({to_fix_term(a)} {sym} {to_fix_term(b)})")
             if a.const is not None and b.const is not None and a.kind == b.kind == "int":
-                ck = {"+": a.const + b.const, "-": a.const - b.const, "*": a.const * b.const}[sym]
+                return lit_int({"+": a.const + b.const, "-": a.const - b.const, "*": a.const * b.const}[sym])
             return V("int", f"({to_int_term(a)} {sym} {to_int_term(b)})", const=ck)
         if isinstance(op, ast.Div):
             # true division by a literal that divides the scale: exact in hundredths
@@ -368,8 +439,17 @@ class Tr:
         left = self.expr(e.left, st, sc)
         for op, rhs in zip(e.ops, e.comparators):
             right = self.expr(rhs, st, sc)
+            if isinstance(op, (ast.Is, ast.IsNot)) and right.kind == "none" and left.kind == "optbytes":
+                parts.append(f"{paren(left.lean)}.isNone" if isinstance(op, ast.Is) else f"{paren(left.lean)}.isSome")
+                left = right
+                continue
             if left.kind == "none" or right.kind == "none":
                 raise Unsupported("comparison with None")
+            if (left.kind in ("bytes", "optbytes") or right.kind in ("bytes", "optbytes")) and isinstance(op, (ast.Eq, ast.NotEq)):
+                x, y = self.bytes_term(self.unopt(left)), self.bytes_term(self.unopt(right))
+                parts.append(f"decide ({x} {'=' if isinstance(op, ast.Eq) else '≠'} {y})")
+                left = right
+                continue
             if left.kind == "bool" and right.kind == "bool" and isinstance(op, (ast.Eq, ast.NotEq)):
                 parts.append(f"({left.lean} {'==' if isinstance(op, ast.Eq) else '!='} {right.lean})")
                 left = right
@@ -385,11 +465,22 @@ class Tr:
             left = right
         return parts[0] if len(parts) == 1 else "(" + " && ".join(parts) + ")"
 
+    def unopt(self, v):
+        """an optional bytes attribute used as bytes (after its None check): `getD []`"""
+        if v.kind == "optbytes":
+            return V("bytes", f"({v.lean}.getD [])")
+        return v
+
     def cond(self, e, st, sc):
         """Lean Bool term for a Python condition (truthiness, and/or/not)"""
         if isinstance(e, ast.BoolOp):
             op = " && " if isinstance(e.op, ast.And) else " || "
-            return "(" + op.join(paren(self.cond(x, st, sc)) for x in e.values) + ")"
+            parts = [paren(self.cond(e.values[0], st, sc))]
+            n0 = len(sc.reads)
+            parts += [paren(self.cond(x, st, sc)) for x in e.values[1:]]
+            if len(sc.reads) != n0:
+                raise Unsupported("an operation that can raise in a short-circuited operand")
+            return "(" + op.join(parts) + ")"
         if isinstance(e, ast.UnaryOp) and isinstance(e.op, ast.Not):
             return f"(!{paren(self.cond(e.operand, st, sc))})"
         return truthy(self.expr(e, st, sc))
@@ -397,6 +488,10 @@ class Tr:
     def call(self, e, st, sc):
         f = e.func
         args = e.args
+        if self.native:
+            r = self.call_native(e, st, sc)
+            if r is not None:
+                return r
         if isinstance(f, ast.Name):
             if f.id == "bool" and len(args) == 1:
                 return V("bool", truthy(self.expr(args[0], st, sc)))
@@ -457,6 +552,73 @@ class Tr:
                                         "bool": lambda v: v.lean if v.kind == "bool" else truthy(v)}[k](v)))
                 return V(rkind, f"{lean_name} " + " ".join(terms))
         raise Unsupported("call " + ast.unparse(e)[:60])
+
+    def call_native(self, e, st, sc):
+        f, args = e.func, e.args
+        ext = self.spec.get("externals", {})
+        # hashlib: sha256(x).digest() / md5(x).digest()
+        if isinstance(f, ast.Attribute) and f.attr == "digest" and isinstance(f.value, ast.Call) \
+                and isinstance(f.value.func, ast.Name) and f.value.func.id in ("sha256", "md5") and len(f.value.args) == 1:
+            v = self.unopt(self.expr(f.value.args[0], st, sc))
+            fn = {"sha256": "Crypto.SHA256.sha256", "md5": "Crypto.MD5.md5"}[f.value.func.id]
+            return V("bytes", f"{fn} {paren(self.bytes_term(v))}")
+        if isinstance(f, ast.Attribute) and f.attr in ("tobytes",) and not args:
+            v = self.expr(f.value, st, sc)
+            if v.kind == "bytes":
+                return v
+        if isinstance(f, ast.Attribute) and f.attr == "to_bytes" and len(args) == 2 and isinstance(args[1], ast.Constant) \
+                and args[1].value in ("little", "big"):
+            n = self.expr(f.value, st, sc)
+            k = self.expr(args[0], st, sc)
+            if k.const is None:
+                raise Unsupported("to_bytes with a computed width")
+            fn = "Py.toBytesLEI" if args[1].value == "little" else "Py.toBytesBEI"
+            name = self.effect(sc, f"{fn} {k.const} {paren(to_int_term(n))}", "tb")
+            return V("bytes", name)
+        if isinstance(f, ast.Attribute) and isinstance(f.value, ast.Name) and f.value.id == "int" and f.attr == "from_bytes" \
+                and len(args) == 2 and isinstance(args[1], ast.Constant) and args[1].value in ("little", "big"):
+            v = self.expr(args[0], st, sc)
+            fn = "Py.fromLE" if args[1].value == "little" else "Py.fromBE"
+            return V("int", f"(({fn} {paren(self.bytes_term(v))} : Nat) : Int)")
+        if isinstance(f, ast.Name) and f.id in ("bytes", "bytearray", "memoryview") and len(args) == 1:
+            v = self.expr(args[0], st, sc)
+            if v.kind == "bytes":
+                return v
+            if v.kind == "optbytes":
+                return self.unopt(v)
+            if v.kind == "ilist":
+                if all(x.kind == "int" and x.const is not None and 0 <= x.const <= 255 for x in v.items):
+                    return V("bytes", "([" + ", ".join(str(x.const) for x in v.items) + "] : Bytes)")
+                name = self.effect(sc, "Py.bytesOf [" + ", ".join(to_int_term(x) for x in v.items) + "]", "bs")
+                return V("bytes", name)
+            if v.kind == "int" and v.const is not None and 0 <= v.const <= 64 and f.id != "memoryview":
+                return V("bytes", f"(Py.zeros {v.const})")
+            return None
+        if isinstance(f, ast.Name) and f.id == "len" and len(args) == 1:
+            v = self.expr(args[0], st, sc)
+            if v.kind in ("bytes", "optbytes"):
+                return V("int", f"({paren(self.bytes_term(self.unopt(v)))}.length : Int)")
+            return None
+        qual = None
+        if isinstance(f, ast.Attribute) and isinstance(f.value, ast.Name):
+            qual = f.value.id + "." + f.attr
+        elif isinstance(f, ast.Name):
+            qual = f.id
+        if qual in ext:
+            lean_fn, kinds, rkind, effectful = ext[qual]
+            if kinds == "input":           # a call whose result is an input of the translated function (randomness, clock)
+                return st[lean_fn]
+            if len(args) != len(kinds):
+                raise Unsupported("arity of " + qual)
+            terms = []
+            for a, k in zip(args, kinds):
+                v = self.unopt(self.expr(a, st, sc))
+                terms.append(paren(self.bytes_term(v) if k == "bytes" else to_int_term(v)))
+            term = f"{lean_fn} " + " ".join(terms)
+            if effectful:
+                return V(rkind, self.effect(sc, term, "r"))
+            return V(rkind, term)
+        return None
 
     def call_generated(self, target, args, st, sc):
         lean_name, kinds, rkind = target
@@ -533,15 +695,39 @@ class Tr:
                 continue
             if isinstance(s, ast.Return):
                 return self.finish(st, None if s.value is None else s.value, sc)
+            if isinstance(s, ast.With) and len(s.items) == 1 and isinstance(s.items[0].optional_vars, ast.Name):
+                v = self.expr(s.items[0].context_expr, st, sc)
+                st[s.items[0].optional_vars.id] = v
+                return self.block(list(s.body) + rest, st, sc)
+            if isinstance(s, ast.Try) and len(s.handlers) == 1 and not s.orelse and not s.finalbody \
+                    and isinstance(s.handlers[0].type, ast.Name) and len(s.handlers[0].body) == 1 \
+                    and isinstance(s.handlers[0].body[0], ast.Raise):
+                # try: <body> except SomeError: raise Other(...)   ->   effects of the body with that error class mapped
+                h = s.handlers[0]
+                exc = h.body[0].exc
+                name = exc.func.id if isinstance(exc, ast.Call) and isinstance(exc.func, ast.Name) else None
+                if name is None:
+                    raise Unsupported("handler re-raises a computed exception")
+                prev = self.err_map
+                self.err_map = (h.type.id, self.err_of(name))
+                try:
+                    body_has_return = self.has_return(s.body)
+                    if body_has_return:
+                        # the try body ends the function: translate body + nothing after it under the mapping
+                        term = self.block(list(s.body), st, sc)
+                        return term
+                    mid = self.pure_or_effect_block(s.body, st, sc)
+                finally:
+                    self.err_map = prev
+                st = mid
+                continue
             if isinstance(s, ast.Raise):
                 exc = s.exc
                 name = exc.func.id if isinstance(exc, ast.Call) and isinstance(exc.func, ast.Name) else \
                     exc.id if isinstance(exc, ast.Name) else None
                 if name is None:
                     raise Unsupported("raise of a computed exception")
-                err = {"InvalidFrameException": ".invalidFrame", "InvalidResponseException": ".invalidResponse",
-                       "ProtocolError": ".protocol", "AuthenticationError": ".auth"}.get(name, f'(.py "{name}")')
-                return f"Except.error {err}"
+                return f"Except.error {self.err_of(name)}"
             if isinstance(s, ast.Expr) and isinstance(s.value, ast.Call) and isinstance(s.value.func, ast.Attribute) \
                     and s.value.func.attr == "append" and len(s.value.args) == 1:
                 cur = self.target_value(s.value.func.value, st)
@@ -576,6 +762,9 @@ class Tr:
                                    f"{paren(st[acc].lean)} {paren(self.seq_term(it))}")
                 continue
             if isinstance(s, ast.If):
+                test, swapped = canon_test(s.test)
+                if swapped:
+                    s = ast.If(test=test, body=list(s.orelse), orelse=list(s.body))
                 c = self.cond(s.test, st, sc)
                 if self.has_return(s.body) or self.has_return(s.orelse):
                     sa, sb = Scope(sc), Scope(sc)
@@ -599,6 +788,26 @@ class Tr:
             raise Unsupported("statement " + type(s).__name__)
         return self.finish(st, None, sc)
 
+    @staticmethod
+    def err_of(name):
+        return {"InvalidFrameException": ".invalidFrame", "InvalidResponseException": ".invalidResponse",
+                "ProtocolError": ".protocol", "AuthenticationError": ".auth"}.get(name, f'(.py "{name}")')
+
+    def pure_or_effect_block(self, stmts, st, sc):
+        """straight-line statements (assignments) whose effects are bound in the CURRENT scope"""
+        st = dict(st)
+        for s in stmts:
+            if isinstance(s, ast.Assign):
+                v = self.expr(s.value, st, sc)
+                for t in s.targets:
+                    self.assign_target(t, v, st)
+            elif isinstance(s, ast.AugAssign):
+                cur = self.target_value(s.target, st)
+                self.assign_target(s.target, self.binop(s.op, cur, self.expr(s.value, st, sc)), st)
+            else:
+                raise Unsupported("statement in try body: " + type(s).__name__)
+        return st
+
     def pure_block(self, stmts, st, sc):
         st = dict(st)
         for s in stmts:
@@ -610,6 +819,9 @@ class Tr:
                 cur = self.target_value(s.target, st)
                 self.assign_target(s.target, self.binop(s.op, cur, self.expr(s.value, st, sc)), st)
             elif isinstance(s, ast.If):
+                test, swapped = canon_test(s.test)
+                if swapped:
+                    s = ast.If(test=test, body=list(s.orelse), orelse=list(s.body))
                 c = self.cond(s.test, st, sc)
                 sta = self.pure_block(s.body, st, sc)
                 stb = self.pure_block(s.orelse, st, sc)
@@ -624,7 +836,9 @@ class Tr:
 
     def emit_scope(self, sc, term):
         gen = getattr(sc, "general", set())
-        lines = [(f"let {name} ← Py.index {paren(key[0])} {paren(str(key[1]))}" if key in gen
+        cus = getattr(sc, "custom", {})
+        lines = [(f"let {name} ← {cus[key]}" if key in cus else
+                  f"let {name} ← Py.index {paren(key[0])} {paren(str(key[1]))}" if key in gen
                   else f"let {name} ← Py.idxI {key[0]} {key[1]}") for key, name in sc.reads]
         if not lines:
             return term
@@ -657,6 +871,8 @@ class Tr:
             else:
                 v = self.expr(retexpr, st, sc)
             k = out[1]
+            if k == "bytes":
+                return "pure " + paren(self.bytes_term(self.unopt(v)))
             if k.startswith("opt:"):
                 return self.as_opt(v, k[4:])
             t = {"int": to_int_term, "fix": to_fix_term}[k](v) if k != "bool" else v.lean
@@ -687,7 +903,11 @@ class Tr:
         params = []
         for name, k in self.spec["inputs"]:
             lean_name = name.replace("self.", "").replace("call:", "")
-            if k == "bytes":
+            if k == "bytes" and self.native:
+                st[name] = V("bytes", lean_name)
+            elif k == "optbytes":
+                st[name] = V("optbytes", lean_name)
+            elif k == "bytes":
                 st[name] = V("bytesvar", lean_name)
             elif k == "ints":
                 st[name] = V("ints", lean_name)
@@ -702,6 +922,20 @@ class Tr:
 
 
 # ------------------------------------------------------------------------------------------------
+
+def canon_test(test):
+    """conditions in a canonical polarity, so that `if a == b: X else: Y`, `if a != b: Y else: X` and `if not (a != b): ...`
+    translate to the same text: top-level `not` is eliminated and a single `==` becomes `!=`; returns (test, swapped)"""
+    swapped = False
+    while True:
+        if isinstance(test, ast.UnaryOp) and isinstance(test.op, ast.Not):
+            test, swapped = test.operand, not swapped
+            continue
+        if isinstance(test, ast.Compare) and len(test.ops) == 1 and isinstance(test.ops[0], ast.Eq):
+            test = ast.Compare(left=test.left, ops=[ast.NotEq()], comparators=test.comparators)
+            swapped = not swapped
+        return test, swapped
+
 
 def find_func(tree, qual):
     parts = qual.split(".")
@@ -744,6 +978,57 @@ SETSTATE_INPUTS = [("self.beep_on", "bool"), ("self.power_on", "bool"), ("self.t
 CMD = "msmart/device/AC/command.py"
 
 FRAME = "msmart/frame.py"
+LAN = "msmart/lan.py"
+V3 = "_LanProtocolV3."
+CBC_DEC = ("Model.decryptCbc", ["bytes", "bytes"], "bytes", True)
+CBC_ENC = ("Model.encryptCbc", ["bytes", "bytes"], "bytes", False)
+
+LAN_SPECS = [
+    dict(name="buildHeader", file=LAN, func=V3 + "_build_header", inputs=[("length", "int"), ("extra", "bytes")],
+         out=("value", "bytes"), rtype="R Bytes", effectful=True, native_bytes=True,
+         model="Model.buildHeaderI length extra"),
+    dict(name="encodeEncryptedRequest", file=LAN, func=V3 + "_encode_encrypted_request",
+         inputs=[("self._local_key", "optbytes"), ("packet_id", "int"), ("data", "bytes"), ("call:rand", "bytes")],
+         out=("value", "bytes"), rtype="R Bytes", effectful=True, native_bytes=True,
+         externals={"get_random_bytes": ("call:rand", "input", None, None), "Security.encrypt_aes_cbc": CBC_ENC,
+                    "self._build_header": ("buildHeader", ["int", "bytes"], "bytes", True)},
+         model="Model.encodeEncryptedRequestI _local_key packet_id data rand"),
+    dict(name="encodeHandshakeRequest", file=LAN, func=V3 + "_encode_handshake_request",
+         inputs=[("packet_id", "int"), ("data", "bytes")],
+         out=("value", "bytes"), rtype="R Bytes", effectful=True, native_bytes=True,
+         externals={"self._build_header": ("buildHeader", ["int", "bytes"], "bytes", True)},
+         model="Model.encodeHandshakeRequestI packet_id data"),
+    dict(name="decodeEncryptedResponse", file=LAN, func=V3 + "_decode_encrypted_response",
+         inputs=[("self._local_key", "optbytes"), ("packet", "bytes")],
+         out=("value", "bytes"), rtype="R Bytes", effectful=True, native_bytes=True,
+         externals={"Security.decrypt_aes_cbc": CBC_DEC},
+         model="Model.decodeEncryptedResponse _local_key packet"),
+    dict(name="decodeHandshakeResponse", file=LAN, func=V3 + "_decode_handshake_response", inputs=[("packet", "bytes")],
+         out=("value", "bytes"), rtype="R Bytes", effectful=True, native_bytes=True,
+         model="Except.ok (Model.decodeHandshakeResponse packet)"),
+    dict(name="processPacket", file=LAN, func=V3 + "_process_packet",
+         inputs=[("self._local_key", "optbytes"), ("packet", "bytes")],
+         out=("value", "bytes"), rtype="R Bytes", effectful=True, native_bytes=True,
+         externals={"self._decode_encrypted_response": ("decodeEncryptedResponse _local_key", ["bytes"], "bytes", True),
+                    "self._decode_handshake_response": ("decodeHandshakeResponse", ["bytes"], "bytes", True)},
+         model="Model.processPacket _local_key packet"),
+    dict(name="getLocalKey", file=LAN, func=V3 + "_get_local_key", inputs=[("key", "bytes"), ("data", "bytes")],
+         out=("value", "bytes"), rtype="R Bytes", effectful=True, native_bytes=True,
+         externals={"Security.decrypt_aes_cbc": CBC_DEC, "strxor": ("Py.strxor", ["bytes", "bytes"], "bytes", True)},
+         model="Model.getLocalKey key data"),
+    dict(name="packetEncode", file=LAN, func="_Packet.encode",
+         inputs=[("device_id", "int"), ("command", "bytes"), ("call:ts", "bytes")],
+         out=("value", "bytes"), rtype="R Bytes", effectful=True, native_bytes=True,
+         externals={"cls._timestamp": ("call:ts", "input", None, None), "_Packet._timestamp": ("call:ts", "input", None, None),
+                    "Security.encrypt_aes": ("Model.encryptAes", ["bytes"], "bytes", False),
+                    "Security.sign": ("Model.sign", ["bytes"], "bytes", False)},
+         model="Model.packetEncodeI device_id ts command"),
+    dict(name="packetDecode", file=LAN, func="_Packet.decode", inputs=[("data", "bytes")],
+         out=("value", "bytes"), rtype="R Bytes", effectful=True, native_bytes=True,
+         externals={"Security.decrypt_aes": ("Model.decryptAes", ["bytes"], "bytes", True),
+                    "Security.sign": ("Model.sign", ["bytes"], "bytes", False)},
+         model="Model.packetDecode data"),
+]
 
 SPECS = [
     dict(name="crc8Calculate", file="msmart/crc8.py", func="calculate", inputs=[("data", "ints")],
@@ -797,7 +1082,7 @@ SPECS = [
          init_none=STATE_ATTRS, out=("attrs", STATE_ATTRS), effectful=True, rtype="R StateAttrs",
          generated={"_parse_temperature": ("parseTemperature", ["int", "fix", "bool"], "opt:fix")},
          model="(Model.parseState payload).map StateAttrs.ofModel"),
-]
+] + LAN_SPECS
 
 
 def translate_all(repo=None):
@@ -825,6 +1110,8 @@ def translate_all(repo=None):
                 cc.update(class_int_consts(c2))
             cc.update(class_int_consts(cls))
             sp["class_consts"] = cc
+            sp["nested_consts"] = {n.name: class_int_consts(n) for n in (cls.body if cls is not None else [])
+                                   if isinstance(n, ast.ClassDef)}
             argnames = [a.arg for a in fn.args.args]
             if argnames and argnames[0] in ("self", "cls"):
                 argnames = argnames[1:]
@@ -856,7 +1143,7 @@ def translate_all(repo=None):
             defs.append((spec, None, False))
     out = []
     out.append("-- GENERATED by harness/pytrans.py from the current source text of /repo. DO NOT EDIT.\n")
-    out.append("import Msmart.Py.Ops\nimport Msmart.Model.Response\nimport Msmart.Generated.Crc8Table\n\nset_option linter.unusedVariables false\n\nnamespace Msmart.Generated.Codec\nopen Msmart\n\n")
+    out.append("import Msmart.Py.Ops\nimport Msmart.Model.Response\nimport Msmart.Model.PacketV3\nimport Msmart.Model.LanInt\nimport Msmart.Generated.Crc8Table\n\nset_option linter.unusedVariables false\n\nnamespace Msmart.Generated.Codec\nopen Msmart\n\n")
     out.append(STATE_STRUCT)
     for spec in SPECS:
         for _tn, lean_tn in (spec.get("table_names") or {}).items():
